@@ -81,6 +81,31 @@ def dedupe_fnproc(src):
     return src[:m.start(1)] + body + src[m.end(1):]
 
 
+def fill_label_proc(path):
+    """LabelProc from the TRANSLATION (pcal renames duplicate labels, e.g. br0 -> br0_)"""
+    txt = open(path).read()
+    tr = txt[txt.index("BEGIN TRANSLATION"):txt.index("END TRANSLATION")]
+    pairs = []
+    for m in re.finditer(r"^(\w+)(\(self\))? == ((?:\w+(?:\(self\))?(?:\s*\\/\s*)?)+)$", tr, re.M):
+        proc, rhs = m.group(1), m.group(3)
+        if proc in ("Next", "Spec", "Init", "vars", "ProcSet", "Termination"):
+            continue
+        labels = re.findall(r"(\w+)(?:\(self\))?", rhs)
+        for lb in labels:
+            pairs.append((lb, proc))
+    pairs.append(("Error", "none"))
+    pairs.append(("Done", "none"))
+    seen = set()
+    uniq = []
+    for lb, pr in pairs:
+        if lb not in seen:
+            seen.add(lb)
+            uniq.append((lb, pr))
+    m = "[lb \\in {" + ", ".join(f'"{l}"' for l, _ in uniq) + "} |-> CASE " + \
+        " [] ".join(f'lb = "{l}" -> "{p}"' for l, p in uniq) + "]"
+    open(path, "w").write(txt.replace("LABELPROC_PLACEHOLDER", m))
+
+
 def label_proc_map(src):
     """map every PlusCal label to the procedure/process that contains it"""
     alg = src[src.index("--algorithm"):src.index("BEGIN TRANSLATION")]
@@ -112,7 +137,7 @@ def assemble(name, template="FiberCore.tmpl"):
     steps += " \\/ (self \\in ScriptFibers /\\ fib(self)) \\/ (self \\in MaintFibers /\\ mf(self))"
     src = src.replace("@@STEPS@@", steps)
     src = dedupe_fnproc(src)
-    src = src.replace("@@LABELPROC@@", label_proc_map(src))
+    src = src.replace("@@LABELPROC@@", "LABELPROC_PLACEHOLDER")
     left = re.findall(r"@@\w+@@", src)
     if left:
         raise SystemExit(f"unfilled placeholders: {left}")
@@ -130,6 +155,7 @@ def assemble(name, template="FiberCore.tmpl"):
             os.remove(os.path.join(GEN, junk))
         except OSError:
             pass
+    fill_label_proc(path)
     ttmpl = open(os.path.join(SPEC, "core", "Trace.tmpl")).read()
     tsrc = fill(ttmpl, sec, name)
     left = re.findall(r"@@\w+@@", tsrc)
@@ -148,7 +174,7 @@ def assemble_thread(name):
         src = src.replace(f"@@INC:{inc}@@", open(os.path.join(SPEC, "thread", inc + ".inc")).read())
     if "@@QUEUEMON@@" in src:
         src = src.replace("@@QUEUEMON@@", open(os.path.join(SPEC, "thread", "QueueMon.inc")).read())
-    src = src.replace("@@LABELPROC@@", label_proc_map(src))
+    src = src.replace("@@LABELPROC@@", "LABELPROC_PLACEHOLDER")
     with open(os.path.join(GEN, name + ".tla"), "w") as f:
         f.write(src)
     r = subprocess.run(["pcal", "-nocfg", name + ".tla"], cwd=GEN, capture_output=True, text=True)
@@ -159,6 +185,7 @@ def assemble_thread(name):
         os.remove(os.path.join(GEN, name + ".old"))
     except OSError:
         pass
+    fill_label_proc(os.path.join(GEN, name + ".tla"))
     ttmpl = open(os.path.join(SPEC, "core", "Trace.tmpl")).read()
     tsrc = fill(ttmpl, dict(DEFAULTS), name)
     with open(os.path.join(GEN, "Trace" + name + ".tla"), "w") as f:
